@@ -186,13 +186,13 @@ static void rt_core(tg::TableSpec& s, int naux, int auxstyle, bool disk, bool ha
     std::string p = scratch_name("rt");
     t.write_fits(p);
     bytes = slurp(p);
-    t2.read_fits(p);
+    if (!t2.read_fits(p)) H->violation("read_fits-returns-false-for-a-successful-read", where);
     { struct splinetable st; st.data = nullptr; if (readsplinefitstable(p.c_str(), &st) != 0) H->violation("roundtrip:C-read-fails", where); else { compare_tables(t, *static_cast<Table*>(st.data), "roundtrip-C", where, has_nan, periods); splinetable_free(&st); } }
     remove(p.c_str());
   } else {
     auto buf = t.write_fits_mem();
     bytes.assign((unsigned char*)buf.first, (unsigned char*)buf.first + buf.second);
-    t2.read_fits_mem(buf.first, buf.second);
+    if (!t2.read_fits_mem(buf.first, buf.second)) H->violation("read_fits_mem-returns-false-for-a-successful-read", where);
     free(buf.first);
   }
   compare_tables(t, t2, "roundtrip", where, has_nan, periods);
